@@ -1970,6 +1970,9 @@ class RawAlgorithmsMixIn:
         for p in range(P):
             b = [0,N]
             L_tilde_data = A_data[:,p].copy()
+            # Q starts as the identity Taylor polynomial: the higher-order
+            # coefficients of a re-used output buffer must not enter the products below
+            Q_data[:,p] = 0
             Q_data[0,p] = numpy.eye(N)
             for D in range(DT):
                 # print 'relaxed problem of order d=',D+1
